@@ -180,7 +180,10 @@ claim('C19', 'dominance rule in lower(); type-based scan for iteration over Rand
       'erg_common / erg_parser / erg_compiler, and no named lock guard is in scope across a yield / sleep / join (one reviewed exception).',
       'Byte-identical bytecode across schedules (e.g. whether the process-global fresh-name counter reaches emitted names) is not decided.',
       'DESIGN.md §3 C19')
-claim('C20', 'who-may-call rule on the resolved call graph + dominance rule in Context::get_mod_with_path',
-      'Decides that a module context is read from the shared cache only through get_mod_with_path and only after the analysis thread of that module was joined (or is not pending).',
-      'Termination, once-only analysis and resolution of import cycles depend on schedules and are not decided.',
+claim('C20', 'who-may-call rule on the resolved call graph + dominance / must-pass rules in get_mod_with_path, PackageBuilder::register, ModuleGraph::inc_ref, build_deps_and_module, start_analysis_process',
+      'Decides that a module context is read from the shared cache only through get_mod_with_path and only after the analysis thread of that module was joined (or is not pending); '
+      'and the shape-visible parts of "terminates, analyses each module once": the descent of register is cut by the seen-test and by the refused cyclic edge, the module graph is '
+      'acyclic by construction (single edge writer behind a transitive reachability test), an analysis starts only with an entry removed from the work list, the built node leaves '
+      'the graph, and every exit of start_analysis_process registers a promise.',
+      'Deadlock-freedom of the joins under every thread schedule, visibility of public names with their declared types, and once-only execution at run time are not decided.',
       'DESIGN.md §3 C20')
